@@ -19,6 +19,12 @@ func (self Analyzer) importGraphIsCyclicInner(originalStart string, start string
 		if node == originalStart {
 			return append(path, node), true
 		}
+		// A cycle which does not contain `originalStart` is a cyclic import as well (and must not be followed forever).
+		for _, visited := range path {
+			if visited == node {
+				return append(path, node), true
+			}
+		}
 		if path, cyclic := self.importGraphIsCyclicInner(originalStart, node, append(path, node)); cyclic {
 			return path, cyclic
 		}
